@@ -874,7 +874,7 @@ var badWd = []string{"saturday:sunday", "friday:monday", "mon", "1", "monday:", 
 	"sunday:saturday", "monday :friday", "0:6", "monday:1", "Sunday", "SATURDAY:saturday"}
 var badDom = []string{"0", "32", "-32", "0:5", "-5:5", "5:1", "-1:-5", "28:-1", "29:-1", "27:-1", "1:32", "a", "1:", "1:2:3", "1.5", "1e1",
 	"0x10", "1_0", " 1", "-0", "00", "+5", "007", "+5:+7", "-31:-31", "31:31", "-31:-1", "1:-1", "27:-2", "-1:1", "--1", "+-1", "1:-32",
-	"31:-1", "-28:-29", "", ":", "9223372036854775808", "-9223372036854775808"}
+	"31:-1", "-28:-29", "-31:31", "-28:28", "-3:30", "-1:31", "", ":", "9223372036854775808", "-9223372036854775808"}
 var badMon = []string{"3:1", "december:january", "jan", "13:12", "foo", "", "1:2:3", "0:13", "13", "00:013", "january:3", "+1:december",
 	"may:may", "-1:1", "december:13", "1:", ":1", "march:2"}
 var badYr = []string{"2022:2020", "abc", "99999999999999999999", "-9223372036854775809", "2020:", "2020", "-5:2020", "+2020:2030",
@@ -1327,7 +1327,7 @@ func TestEngine(t *testing.T) {
 			}
 		}
 	}
-	n := hx.Cases(6000, 60000)
+	n := hx.Cases(6000, 200000)
 	for i := range n {
 		if i%5 == 4 {
 			g.badCase(tr, id)
